@@ -214,6 +214,9 @@ struct Gen<'a> {
     admin_bias: bool,
     nodes_left: u32,
     uniq: u32,
+    /// keys written recently (reads, removes and queries are biased towards them: read-after-write,
+    /// overwrite-then-remove within one transaction)
+    recent: Vec<KeySpec>,
 }
 
 const GOOD_KEYS: [&str; 10] = ["k", "key", "action", "a_b", "x", "\u{e9}", " x ", "xy", "ab ", "\u{200b}"];
@@ -306,6 +309,14 @@ impl<'a> Gen<'a> {
         }
     }
 
+    fn recent_or_key(&mut self) -> KeySpec {
+        if !self.recent.is_empty() && self.rng.chance(1, 2) {
+            self.rng.pick(&self.recent).clone()
+        } else {
+            self.key()
+        }
+    }
+
     fn key(&mut self) -> KeySpec {
         if self.pc(self.p.adversarial_keys) {
             KeySpec::RootSuffix { idx: self.rng.below(4096) as u32, cut: self.rng.below(64) as u32 }
@@ -323,9 +334,12 @@ impl<'a> Gen<'a> {
             3 => QueryOp::Balance { who: self.target_any(), denom: self.rng.below(self.n_denoms as u64 + 1) as u32 },
             4 => QueryOp::AllBalances { who: self.target_any() },
             5 => QueryOp::Supply { denom: self.rng.below(self.n_denoms as u64) as u32 },
-            6 | 7 => QueryOp::Raw { contract: self.target_contract(), key: self.key() },
+            6 | 7 => QueryOp::Raw { contract: self.target_contract(), key: self.recent_or_key() },
             8 | 9 => {
-                let keys = (0..self.rng.below(3)).map(|_| self.rng.pick(&KEY_POOL).to_vec()).collect();
+                let mut keys: Vec<Vec<u8>> = (0..self.rng.below(3)).map(|_| self.rng.pick(&KEY_POOL).to_vec()).collect();
+                if let Some(KeySpec::Lit(k)) = self.recent.last().cloned() {
+                    keys.push(k);
+                }
                 QueryOp::Smart { contract: self.target_contract(), keys }
             }
             10 | 11 => QueryOp::ContractInfo { contract: self.target_contract() },
@@ -377,7 +391,7 @@ impl<'a> Gen<'a> {
         if self.pc(self.p.writes / 2) {
             for _ in 0..1 + self.rng.below(2) {
                 let r = if self.rng.chance(1, 2) {
-                    ReadOp::Get(self.key())
+                    ReadOp::Get(self.recent_or_key())
                 } else {
                     let start = if self.rng.chance(1, 2) { None } else { Some(self.rng.pick(&KEY_POOL).to_vec()) };
                     let end = if self.rng.chance(1, 2) { None } else { Some(self.rng.pick(&KEY_POOL).to_vec()) };
@@ -393,11 +407,16 @@ impl<'a> Gen<'a> {
         }
         if self.pc(self.p.writes) {
             for _ in 0..1 + self.rng.below(3) {
-                let k = self.key();
                 if self.rng.chance(1, 5) {
+                    let k = self.recent_or_key();
                     n.writes.push(WriteOp::Remove { k });
                 } else {
+                    let k = self.recent_or_key();
                     let v = format!("w{}-{}", nid, self.uniq()).into_bytes();
+                    self.recent.push(k.clone());
+                    if self.recent.len() > 8 {
+                        self.recent.remove(0);
+                    }
                     n.writes.push(WriteOp::Set { k, v });
                 }
             }
@@ -657,7 +676,7 @@ fn gen_case(rng: &mut Rng, cfg: &Cfg) -> Case {
     let unbonding_secs = *rng.pick(&[1u64, 60, 60, 3600]);
     let nops = 3 + rng.usize(p.ops);
     let admin_bias = cfg.property == "C12" || rng.chance(1, 4);
-    let mut g = Gen { rng, p, nid: 0, n_accounts, n_denoms, n_validators, n_codes: 0, n_slots: 0, n_live: 0, admin_bias, nodes_left: 0, uniq: 0 };
+    let mut g = Gen { rng, p, nid: 0, n_accounts, n_denoms, n_validators, n_codes: 0, n_slots: 0, n_live: 0, admin_bias, nodes_left: 0, uniq: 0, recent: vec![] };
     let mut ops = vec![];
     // setup prefix: codes and a few contracts (at least two from the same code)
     let ncodes = 2 + g.rng.below(3);
